@@ -142,6 +142,14 @@ def perform(e, call):
   raise ValueError(name)
 
 
+def dirty_map(e):
+  try:
+    return {'%s.%s' % (n.table_id, n.col_id): ('ALL' if rows is G.engine_mod.depend.ALL_ROWS else sorted(rows))
+            for n, rows in e.recompute_map.items()}
+  except AttributeError:
+    raise core.TieBroken('Engine.recompute_map no longer exists')
+
+
 def lens(e):
   o = e.out_actions
   return (len(o.calc), len(o.stored), len(o.direct), len(o.undo), len(o.retValues))
@@ -162,6 +170,7 @@ def check_call(e, call, stats=None, hooks=None):
   before = G.snapshot(e)
   bs = G.engine_schema(e)
   bl = lens(e)
+  dm = dirty_map(e)
   hooks = hooks or (None, None)
   with RI.REC.session(hook_enter=hooks[0], hook_exit=hooks[1]) as rec:
     try:
@@ -174,6 +183,15 @@ def check_call(e, call, stats=None, hooks=None):
                                                  (ev[1] == 'set' and not ev[4][4] and not ev[4][1].startswith('#'))),
           'docs': list(rec.docs), 'events': events}
   after = G.snapshot(e)
+  if dirty_map(e) != dm and dm:
+    # cells that were dirty before the call were evaluated by it (engine._use_node -> _recompute -> _update_loop
+    # outside _pre_update/_post_update): their new values are written without any action reporting them
+    d2 = dirty_map(e)
+    gone = sorted(k for k in dm if d2.get(k) != dm[k])
+    return ('readonly-call-recomputes-dirty-cells-unreported',
+            '%s evaluated dirty cells of %s without reporting them%s' % (
+              call[0], gone[:3], ('; tables changed: ' + '; '.join(G.diff_snapshots(before, after)[:2]))
+              if after != before else ' (values happened to be unchanged)'), info)
   if after != before:
     return ('readonly-call-changed-tables',
             '%s changed the tables: %s' % (call[0], '; '.join(G.diff_snapshots(before, after)[:3])), info)
@@ -248,8 +266,6 @@ def run_history(ctx, seed_rng, stats, on_case):
                 kind=call[0] + (':dirty-doc' if dirty else ''),
                 sample={'call': list(call[:4]), 'side_effects_undone': info['side_effects']})
       if kind:
-        if kind == 'readonly-call-changed-tables' and dirty and call[0] in ('get_formula_error', 'evaluate_formula'):
-          kind = 'formula-evaluation-recomputes-dirty-cells-unreported'
         v = {'kind': kind, 'what': what + ' [document dirty before the call: %s]' % dirty,
              'replay': {'log': copy.deepcopy(ld1.log), 'calls': [list(call)]}}
         if kind == 'evaluate-formula-poisons-auto-remove-set':
@@ -260,6 +276,12 @@ def run_history(ctx, seed_rng, stats, on_case):
             s_.discard(x)
           found.append(v)
           continue
+        if kind == 'readonly-call-recomputes-dirty-cells-unreported':
+          # reported; engine 1 has silently cleaned cells that are still dirty in the control: re-synchronise it and
+          # skip the rest of this battery
+          found.append(v)
+          ld1 = c04.LoggedDoc(ld2.log)
+          break
         return found + [v]
     if b == nb:
       break
@@ -283,13 +305,15 @@ def run_history(ctx, seed_rng, stats, on_case):
   o = both([['Calculate']])
   if o[0] != o[1]:
     return found + [{'kind': 'calculate-emits-after-readonly', 'what': 'Calculate differs from the control engine: %r vs %r' % (
-      o[0][1][:200], o[1][1][:200]), 'replay': {'log': copy.deepcopy(ld2.log[:-1]), 'calls': [], 'then': [['Calculate']]}}]
+      o[0][1][:200], o[1][1][:200]), 'replay': {'log': copy.deepcopy(ld2.log[:-1]), 'calls': [list(c) for c in done],
+                                                'then': [['Calculate']]}}]
   t = G.user_tables(ld1.e)
   if t:
     o = both([['AddRecord', t[0], None, {}]])
     if o[0] != o[1] or o[0][0] != 'ok':
       return found + [{'kind': 'next-bundle-fails-after-readonly', 'what': 'AddRecord after the calls: %r vs control %r' % (o[0], o[1]),
-                       'replay': {'log': copy.deepcopy(ld2.log[:-1]), 'calls': [], 'then': [['AddRecord', t[0], None, {}]]}}]
+                       'replay': {'log': copy.deepcopy(ld2.log[:-2]), 'calls': [list(c) for c in done],
+                                  'then': [['Calculate'], ['AddRecord', t[0], None, {}]]}}]
   stats['histories-completed'] += 1
   return found
 
@@ -322,8 +346,6 @@ def replay_kind(w):
     except KeyError:
       continue                      # the call names a table/column that a shrunk log no longer creates
     if kind:
-      if kind == 'readonly-call-changed-tables' and dirty and call[0] in ('get_formula_error', 'evaluate_formula'):
-        kind = 'formula-evaluation-recomputes-dirty-cells-unreported'
       return kind, what
   if w.get('then'):
     o = apply_both(ld1, ld2, w['then'])
